@@ -255,6 +255,12 @@ func execOp(ctx context.Context, b *el.Broker, o *cOp, sh *concShared) {
 	case "send":
 		_, err := b.Send(ctx, el.EventType(o.Typ), &sendPayload{ID: o.SendID})
 		setRet(o, sh, err == nil, false, 0)
+	case "send-cancelled":
+		// a Send whose context is done before the call: it delivers nothing (and is no part of the history
+		// check), but it is a Broker call like any other for the race detector
+		cctx, cancel := context.WithCancel(ctx)
+		cancel()
+		b.Send(cctx, el.EventType(o.Typ), &plainPayload{N: o.SendID})
 	}
 }
 
@@ -266,6 +272,9 @@ func collectOps(cs []*concClient, sh *concShared) []*cOp {
 			o := cs[i].ops[j]
 			if o.Kind == "send" && o.Done {
 				o.Seen = sh.marksOf(o.SendID)
+			}
+			if o.Kind == "send-cancelled" {
+				continue
 			}
 			cp := *o
 			out = append(out, &cp)
@@ -652,6 +661,9 @@ func runConc(rc *RunCtx, prop string) {
 		case 10:
 			return one(&cOp{Kind: "reopen"})
 		case 11:
+			if prop == "C04" && tp.Choose(6, "send-with-done-context") == 0 {
+				return one(&cOp{Kind: "send-cancelled", Typ: typ, SendID: sh.nextSend()})
+			}
 			return one(&cOp{Kind: "send", Typ: typ, SendID: sh.nextSend()})
 		default:
 			return newRegPipe(typ, pid, true)
